@@ -34,12 +34,16 @@ def addIncludes : List String → List String → List String
 def excludesOf (flags : List String) : List String :=
   (flags.filter (fun f => !isPlus f)).map flagName
 
+/-- what the flags include explicitly: all supported keys for `+any`, then every `+x` -/
+def explicitIncludes (keys flags : List String) : List String :=
+  addIncludes (if flags.contains "+any" then keys else []) flags
+
+/-- `if (not includes) and excludes: includes = list(self.target_keys)` -/
+def effectiveIncludes (keys flags : List String) : List String :=
+  if (explicitIncludes keys flags).isEmpty && !(excludesOf flags).isEmpty then keys else explicitIncludes keys flags
+
 def evalTargets (keys flags : List String) : List String :=
-  let base := if flags.contains "+any" then keys else []
-  let incl := addIncludes base flags
-  let excl := excludesOf flags
-  let incl := if incl.isEmpty && !excl.isEmpty then keys else incl
-  incl.filter (fun i => !excl.contains i)
+  (effectiveIncludes keys flags).filter (fun i => !(excludesOf flags).contains i)
 
 /-- targets of an interface / a `function` type: an empty evaluation means "all supported" -/
 def targetsOrAll (keys flags : List String) : List String :=
